@@ -171,12 +171,14 @@ setup_call_cleanup(S, G, C) :-
 
 :- non_counted_backtracking scc_helper/3.
 
-scc_helper(C, G, Bb) :-
+scc_helper(C, G, _) :-
     '$get_cp'(Cp),
     '$install_scc_cleaner'(C),
     '$call_with_inference_counting'(call(G)),
     (  '$check_cp'(Cp) ->
-       '$reset_scc_block'(Bb),
+       % '$get_scc_cleaner'/1 restores the previous block (Bb) in the same step
+       % that pops the cleaner: resetting it here first would let an interrupt
+       % that arrives in between bypass the cleanup and leave the cleaner behind
        run_cleaners_without_handling(Cp)
     ;  true
     ;  '$fail'
